@@ -49,6 +49,28 @@ pub mod control_handle;
 pub mod register_map;
 pub mod stream_handle;
 
+/// Verification support (only compiled with `--cfg cameleon_verif`): named yield points of the
+/// streaming loop call a harness-installed callback.
+#[cfg(cameleon_verif)]
+pub mod verif {
+    use std::sync::RwLock;
+
+    type Hook = Box<dyn Fn(&'static str) + Send + Sync>;
+    static HOOK: RwLock<Option<Hook>> = RwLock::new(None);
+
+    /// Install (or remove) the callback invoked at every yield point.
+    pub fn set_yield_hook(hook: Option<Hook>) {
+        *HOOK.write().unwrap() = hook;
+    }
+
+    /// Called by the streaming loop at its named yield points.
+    pub fn yield_point(name: &'static str) {
+        if let Some(hook) = &*HOOK.read().unwrap() {
+            hook(name);
+        }
+    }
+}
+
 pub use control_handle::{ControlHandle, SharedControlHandle};
 pub use stream_handle::{StreamHandle, StreamParams};
 
